@@ -26,11 +26,11 @@ OBLIGATIONS = ["genCheckVertex_eq", "genCheckVertexI_eq", "genIsEdge_eq", "genNe
                "genEdges_eq", "genNEdges_eq", "genIsolated_eq", "genIsolatedVertices_eq", "genHasIsolatedVertices_eq",
                "genGetAdjacencyList_eq", "genGetPredecessorsList_eq", "genDfs_eq", "genHasCycles_eq", "genHasCyclesM_eq",
                "genIsTree_eq", "genFindAllPaths_eq", "genNPaths_eq", "genIsLeaf_eq", "genLeaves_eq", "genNLeaves_eq",
-               "genParent_eq", "genGraphInit_eq", "genUndirectedGraphInit_eq", "genDirectedGraphInit_eq",
+               "genParent_eq", "genIsSymmetric_eq", "genGraphInit_eq", "genUndirectedGraphInit_eq", "genDirectedGraphInit_eq",
                "genTreeInit_eq", "genDepthOfVertex_eq", "genVerticesAtDepth_eq", "genNVerticesAtDepth_eq",
                "genConvertEdges_eq", "genConvertEdgesSym_eq", "genMask_eq", "genFromMaskD_eq", "genFromMaskU_eq", "genFromMaskT_eq"]
 N_OBLIGATIONS = len(OBLIGATIONS)
-N_DEFS = 41   # `def gen...` of the generated file (one of them, genEdges, is dispatch glue)
+N_DEFS = 42   # `def gen...` of the generated file (one of them, genEdges, is dispatch glue)
 
 INT_SUB = {P.ast.Sub: "(({a} : Int) - ({b} : Int))"}
 
@@ -271,11 +271,15 @@ def items():
             ("isinstance(adjacency_matrix, csr_matrix)", "(m.kind == MatKind.csr)"),
             ("csr_matrix($x)", "{x}"), ("$x.copy()", "{x}"),
             ("$x.shape[1]", "(RawMat.ncols {x})"), ("$x.shape[0]", "(RawMat.nrows {x})"),
-            ("_is_symmetric($x)", "(Graph.symmetricB (RawMat.graph {x}))")]
+            ("_is_symmetric($x)", "(genIsSymmetric {x})")]
+    SYM = [("issparse($x)", "(RawMat.isSparse {x})"), ("($x != $x.T).nnz", "(Graph.asymCount (RawMat.graph {x}))"),
+           ("np.count_nonzero($x != $x.T)", "(Graph.asymCount (RawMat.graph {x}))")]
+    add("def genIsSymmetric (array : RawMat) : Bool :=", "true",
+        lambda: T(extra_expr=SYM, ret="{e}").function(G._is_symmetric, {"array": "array"}, ind=1))
     add("def genGraphInit (directed : Bool) (m : RawMat) (copy skipchecks : Bool) : Option Graph :=", "none",
-        lambda: P.Translator2W(rules(cls=G.Graph, extra_expr=INIT, stmt=[("$x.eliminate_zeros()", "x", "{x}")],
+        lambda: P.Translator2W(rules(cls=G.Graph, extra_expr=INIT, stmt=[("$x.eliminate_zeros()", "x", "(RawMat.eliminateZeros {x})")],
                                      attr_vars={"adjacency_matrix": "self_adjacency_matrix"},
-                                     end="some (RawMat.graph {self_adjacency_matrix})")).function(
+                                     end="RawMat.graphOf {self_adjacency_matrix}")).function(
             G.Graph.__init__, {"self": "g", "adjacency_matrix": "m", "copy": "copy", "skip_checks": "skipchecks"}, ind=1))
     for cls, flag in (("UndirectedGraph", "false"), ("DirectedGraph", "true")):
         def flag_init(cls=cls):
@@ -361,7 +365,7 @@ ORDER = ["genCheckVertex", "genCheckVertexI", "genIsEdge", "genNeighbours", "gen
          "genNChildren", "genNParents", "genEdgesU", "genEdgesD", "genEdges", "genNEdges", "genIsolated",
          "genIsolatedVertices", "genHasIsolatedVertices", "genGetAdjacencyList", "genGetPredecessorsList", "genDfs",
          "genHasCycles", "genHasCyclesM", "genIsTree", "genFindAllPaths", "genNPaths", "genIsLeaf", "genLeaves",
-         "genNLeaves", "genParent", "genGraphInit", "genUndirectedGraphInit", "genDirectedGraphInit", "genTreeInit",
+         "genNLeaves", "genParent", "genIsSymmetric", "genGraphInit", "genUndirectedGraphInit", "genDirectedGraphInit", "genTreeInit",
          "genDepthOfVertex", "genVerticesAtDepth", "genNVerticesAtDepth", "genMaskAdjacencyMatrixAndPoints",
          "genFromMaskU", "genFromMaskD", "genFromMaskT", "genConvertEdges", "genConvertEdgesSym"]
 
